@@ -23,7 +23,8 @@ SimulatedStateModel::SimulatedStateModel
     state_model_(std::move(state_model))
 {
     target_ = MatrixXd(initial_state.rows(), simulation_time_);
-    target_.col(0) = initial_state;
+    if (simulation_time_ > 0)
+        target_.col(0) = initial_state;
 
     for (int k = 1; k < simulation_time_; ++k)
         state_model_->motion(target_.col(k - 1), target_.col(k));
